@@ -27,7 +27,7 @@ PLAIN = ["attr_class_dyn", "attr_style_dyn", "attr_key_dyn", "attr_ref_dyn", "at
          "attr_onclick_lower_dyn", "attr_onfoo_dyn", "attr_onupdate_dyn", "attr_id_dyn", "attr_id_bool", "attr_id_str", "attr_class_str", "attr_onfoo_bool"]
 DARM = ["darm_normal", "darm_html", "darm_text", "darm_vmodel_plain", "darm_vmodel_strarg", "darm_vmodel_computed", "darm_vmodel_nullarg", "darm_slots_some", "darm_slots_none"]
 TAGS = ["tag_div", "tag_svg", "tag_fragment", "tag_keepalive", "tag_foo_comp", "tag_xel_nopattern", "tag_xel_pattern", "tag_lower_unknown",
-        "tag_upper_div", "tag_a", "tag_div_pattern", "tag_foo_pattern"]
+        "tag_upper_div", "tag_a", "tag_div_pattern", "tag_foo_pattern", "tag_camel_svg"]
 
 UNITS = [
     U("U-ison", ["util::is_on"], ["ison_spec"], ["C13", "C01"], domain="all ASCII strings of length <= 4 (the function reads <= 3 bytes): complete", mem_gb=4, timeout=300),
@@ -51,11 +51,13 @@ UNITS = [
 ]
 
 DIRSPELL = ["dirspell_kebab", "dirspell_camel", "dirspell_camel_inner_upper", "dirspell_one_modifier", "dirspell_two_modifiers", "dirspell_ns_arg",
-            "dirspell_ns_arg_modifier", "dirspell_camel_ns", "dirspell_show", "dirspell_kebab_inner"]
+            "dirspell_ns_arg_modifier", "dirspell_camel_ns", "dirspell_show", "dirspell_kebab_inner", "dirspell_name_starts_with_v", "dirspell_ns_name_starts_with_v", "dirspell_suffix_with_array_form"]
 DIRVAL = ["dirval_v", "dirval_v_arg", "dirval_v_mods", "dirval_v_arg_mods", "dirval_empty_array", "dirval_hole", "dirval_absent", "dirval_string", "dirval_nonident_modifier"]
+DIRVAL_SLOW = ["dirval_v_mods", "dirval_v_arg_mods", "dirval_nonident_modifier"]
+VMODEL_SLOW = ["vmodel_array_mods", "vmodel_array_arg_mods"]
 VHTML = ["vhtml_absent", "vhtml_str", "vhtml_expr", "vhtml_array", "vhtml_empty", "vhtml_element", "vhtml_fragment",
          "vtext_absent", "vtext_str", "vtext_expr", "vtext_array", "vtext_empty", "vtext_element", "vtext_fragment"]
-VMODEL = ["vmodel_plain", "vmodel_suffix_modifier", "vmodel_ns_arg", "vmodel_ns_arg_modifier", "vmodel_array_strarg", "vmodel_array_computed", "vmodel_array_mods", "vmodel_array_arg_mods", "vmodel_camel"]
+VMODEL = ["vmodel_plain", "vmodel_suffix_modifier", "vmodel_ns_arg", "vmodel_ns_arg_modifier", "vmodel_array_strarg", "vmodel_array_computed", "vmodel_array_mods", "vmodel_array_arg_mods", "vmodel_camel", "vmodel_ns_arg_array_form", "vmodel_ns_arg_modifier_array_form"]
 RESOLVE = ["resolve_show", "resolve_custom", "resolve_model_input_notype", "resolve_model_input_checkbox", "resolve_model_input_radio", "resolve_model_input_text",
            "resolve_model_input_dynamic", "resolve_model_input_type_after_other", "resolve_model_select", "resolve_model_select_with_type", "resolve_model_textarea", "resolve_model_other_element"]
 PRAGMAC = ["pragmac_plain", "pragmac_jsdoc", "pragmac_custom", "pragmac_unrelated", "pragmac_importsource", "pragmac_frag", "pragmac_runtime", "pragmac_noname", "pragmac_noname_star", "pragmac_trailing_words", "pragmac_multiline"]
@@ -66,13 +68,17 @@ RTB = ["rtb_date", "rtb_map", "rtb_set", "rtb_promise", "rtb_regexp", "rtb_error
 D12 = {"memcmp.0": 33}
 UNITS += [
     U("U-dirspell", ["directive::parse_directive", "directive::transform_modifiers"], DIRSPELL, ["C04", "C08"], completeness="bounded",
-      domain="10 concrete directive spellings (kebab, camel, inner capitals, 1-2 `_mod` suffixes, namespaced arg) x symbolic host kind", mem_gb=8, timeout=900, assumes=[A_DROP, A_CLONE]),
-    U("U-dirval", ["directive::parse_directive", "directive::parse_modifiers", "directive::transform_modifiers"], DIRVAL, ["C04", "C07", "C08"], completeness="bounded",
-      domain="9 value forms ([v], [v,arg], [v,[mods]], [v,arg,[mods]], [], hole, absent, string, non-identifier modifier)", mem_gb=8, timeout=900, assumes=[A_DROP, A_CLONE]),
+      domain="10 concrete directive spellings (kebab, camel, inner capitals, 1-2 `_mod` suffixes, namespaced arg) x symbolic host kind", mem_gb=8, timeout=1200, unwindset={"memcmp.0": 12}, assumes=[A_DROP, A_CLONE]),
+    U("U-dirval", ["directive::parse_directive", "directive::transform_modifiers"], [h for h in DIRVAL if h not in DIRVAL_SLOW], ["C04", "C07", "C08"], completeness="bounded",
+      domain="6 value forms ([v], [v,arg], [], hole, absent, string)", mem_gb=8, timeout=1200, unwindset={"memcmp.0": 12}, assumes=[A_DROP, A_CLONE]),
+    U("U-dirval-mods", ["directive::parse_directive", "directive::parse_modifiers", "directive::transform_modifiers"], DIRVAL_SLOW, ["C04", "C07", "C08"], completeness="bounded", tier="thorough",
+      domain="3 value forms with a modifier list ([v,[mods]], [v,arg,[mods]], non-identifier modifier): std BTreeSet::from_iter sorts (CBMC tarpit)", mem_gb=16, timeout=3600, unwindset={"memcmp.0": 12}, assumes=[A_DROP, A_CLONE]),
     U("U-vhtml", ["directive::parse_v_html_directive", "directive::parse_v_text_directive"], VHTML, ["C04", "C08"],
       domain="every JSXAttrValue kind (absent, string, expression, array form, empty container, element, fragment) x {v-html, v-text}: complete over value kinds", mem_gb=8, timeout=900, assumes=[A_DROP, A_CLONE]),
-    U("U-vmodel-parse", ["directive::parse_v_model_directive"], VMODEL, ["C05"], completeness="bounded",
-      domain="9 v-model spellings/value forms x symbolic host kind", mem_gb=8, timeout=900, assumes=[A_DROP, A_CLONE]),
+    U("U-vmodel-parse", ["directive::parse_v_model_directive"], [h for h in VMODEL if h not in VMODEL_SLOW], ["C05"], completeness="bounded",
+      domain="9 v-model spellings/value forms without a modifier list x symbolic host kind", mem_gb=8, timeout=1200, unwindset={"memcmp.0": 12}, assumes=[A_DROP, A_CLONE]),
+    U("U-vmodel-parse-mods", ["directive::parse_v_model_directive", "directive::parse_modifiers"], VMODEL_SLOW, ["C05"], completeness="bounded", tier="thorough",
+      domain="2 v-model array forms with a modifier list", mem_gb=16, timeout=3600, unwindset={"memcmp.0": 12}, assumes=[A_DROP, A_CLONE]),
     U("U-resolvedir", ["VueJsxTransformVisitor::resolve_directive"], RESOLVE, ["C04", "C05"],
       domain="directive {show, model, other} x host {input, select, textarea, other} x type attribute {absent, checkbox, radio, other string, dynamic, after another attribute} x symbolic options", mem_gb=8, timeout=900, assumes=[A_DROP, A_CLONE, A_FMT]),
     U("U-pragma-prec", ["VueJsxTransformVisitor::get_pragma"], ["pragma_none", "pragma_option", "pragma_comment", "pragma_comment_over_option"], ["C15"],
@@ -102,9 +108,11 @@ UNITS += [
       assumes=[A_DROP, A_CLONE, A_TT, A_CONST, A_FMT, A_EXTRACT]),
     U("U-step-spread", ["VueJsxTransformVisitor::transform_attrs[spread arm]", "util::dedupe_props"], ["step_spread_expr", "step_spread_object"], ["C13", "C01"], completeness="bounded",
       domain="spread arm: {expression, object literal} x symbolic state and options; earlier props list of length <= 1; dedupe_props replaced by identity (own unit U-dedupe)", mem_gb=24, timeout=1800, tier="thorough", unwindset={"memcmp.0": 12}, assumes=[A_DROP, A_CLONE, A_FMT, A_EXTRACT]),
+    U("U-step-spread-flag", ["VueJsxTransformVisitor::transform_attrs[spread arm]"], ["step_spread_flag_expr", "step_spread_flag_object"], ["C13"],
+      domain="spread arm, hint effect: {expression, object literal} x symbolic options, empty earlier lists", mem_gb=10, timeout=900, unwindset={"memcmp.0": 12}, assumes=[A_DROP, A_CLONE, A_FMT, A_EXTRACT]),
     U("U-flagfinal", ["VueJsxTransformVisitor::transform_attrs[finalisation]"], ["step_finalize"], ["C13"],
       domain="all 2^7 combinations of the analysis booleans: complete", mem_gb=6, timeout=600, assumes=[A_DROP, A_EXTRACT]),
-    U("U-assemble", ["VueJsxTransformVisitor::transform_attrs[props assembly]", "util::dedupe_props"], ["asm_none", "asm_one_prop", "asm_two_props", "asm_lone_spread", "asm_one_merge", "asm_two_merge", "asm_merge_and_props", "asm_two_merge_and_props"], ["C01"],
+    U("U-assemble", ["VueJsxTransformVisitor::transform_attrs[props assembly]", "util::dedupe_props"], ["asm_none", "asm_one_prop", "asm_two_props", "asm_lone_spread", "asm_one_merge", "asm_two_merge", "asm_merge_and_props", "asm_two_merge_and_props", "asm_repeated_plain", "asm_repeated_class"], ["C01"],
       completeness="bounded", domain="props list of length 0..2 or a lone spread x merge-argument list of length 0..2 x symbolic options", mem_gb=8, timeout=900, unwindset={"memcmp.0": 12}, assumes=[A_DROP, A_CLONE, A_FMT, A_EXTRACT]),
     U("U-step-dir", ["VueJsxTransformVisitor::transform_attrs[directive arm]"], ["step_dir_normal", "step_dir_html", "step_dir_text", "step_slots_some", "step_slots_none"], ["C04", "C13", "C03"],
       domain="directive arm from an arbitrary analysis state: parse results {normal, html, text, v-slots value / none} x symbolic host kind and options; complete over these parse-result kinds",
@@ -115,6 +123,16 @@ UNITS += [
       unwindset={"memcmp.0": 21}, assumes=[A_DROP, A_CLONE, A_CONST, A_TT, A_FMT, A_EXTRACT]),
     U("L-flags", ["lemma over the contracts of U-step-plain / U-step-spread / U-step-dir / U-flagfinal"], ["flags_lemma"], ["C13"], backend="verus",
       domain="attribute sequences of ANY length (induction): unbounded", assumes=["the abstract step of the directive arms (K_DIR_*, K_VMODEL_*) in the lemma is the contract checked by U-step-dir"]),
+]
+
+CHILDREN = ["children_none", "children_text", "children_expr", "children_empty_expr", "children_text_expr", "children_expr_empty", "children_text_bound_ident",
+            "children_text_unbound_ident", "children_spread_text", "children_bound_spread_text"]
+UNITS += [
+    U("U-children", ["VueJsxTransformVisitor::transform_children", "VueJsxTransformVisitor::wrap_children", "VueJsxTransformVisitor::transform_jsx_text"], CHILDREN, ["C02", "C13"], completeness="bounded",
+      domain="child lists of length <= 2 over {text, expression, empty expression, bound / unbound identifier, spread} x symbolic host kind and options", mem_gb=8, timeout=1200,
+      unwindset={"memcmp.0": 16}, assumes=[A_DROP, A_CLONE, A_TT, A_FMT]),
+    U("U-slotflag-stack", ["VueJsxTransformVisitor::transform_children"], ["slot_flag_stack_fill"], ["C13"], completeness="bounded", domain="two enclosing elements, bound identifier child", mem_gb=8, timeout=1200,
+      unwindset={"memcmp.0": 16}, assumes=[A_DROP, A_CLONE, A_TT, A_FMT]),
 ]
 
 CANARY = dict(harness="canary_must_fail", timeout=300, mem_gb=4)
